@@ -154,6 +154,17 @@ def grid_cases(versions):
                                        {"v": list(v), "items": [{"op": "Destroy", "uid": victim}]},
                                        {"v": list(v), "items": [item]},
                                        {"v": list(v), "items": [{"op": "Locate"}]}]})
+        # keys whose stored material is not what its format says or is an unusual member of it
+        # (password-protected PKCS#8, other key types, truncated, arbitrary bytes, nothing) read
+        # back with every Key Format Type
+        for ml, otype, hexval in _odd_keys():
+            for stored in ("PKCS_8", "PKCS_1"):
+                reg = {"op": "Register", "obj": {"type": otype, "value": hexval, "alg": "RSA", "len": 1024, "fmt": stored},
+                       "attrs": [["Cryptographic Usage Mask", 1 if otype == "PrivateKey" else 2]]}
+                for f in [None] + list(M.KEY_FORMATS):
+                    g = {"op": "Get"} if f is None else {"op": "Get", "fmt": f}
+                    cases.append({"label": "Batch/odd-key-%s-as-%s+Get-%s" % (ml, stored, f),
+                                  "reqs": [{"v": list(v), "cont": "CONTINUE", "items": [reg, g, {"op": "GetAttributes"}]}]})
         for cl, citem in creators:
             for pop in _hist.PLACEHOLDER_OPS:
                 if pop in ("Encrypt", "MAC", "Sign") and tuple(v) < (1, 2):
@@ -164,6 +175,34 @@ def grid_cases(versions):
                         req["cont"] = cont
                     cases.append({"label": "Batch/%s+%s" % (cl, pop), "reqs": [req]})
     return cases
+
+
+_ODD = []
+
+
+def _odd_keys():
+    """[(label, object type, hex material)] - made once with the cryptography library."""
+    if _ODD:
+        return _ODD
+    from cryptography.hazmat.primitives import serialization as ser
+    from cryptography.hazmat.primitives.asymmetric import rsa, ec, ed25519
+    k = rsa.generate_private_key(public_exponent=65537, key_size=1024)
+    p8 = k.private_bytes(ser.Encoding.DER, ser.PrivateFormat.PKCS8, ser.NoEncryption())
+    _ODD.extend([
+        ("pkcs8-password-protected", "PrivateKey",
+         k.private_bytes(ser.Encoding.DER, ser.PrivateFormat.PKCS8, ser.BestAvailableEncryption(b"pw")).hex()),
+        ("pkcs8-ec", "PrivateKey", ec.generate_private_key(ec.SECP256R1()).private_bytes(
+            ser.Encoding.DER, ser.PrivateFormat.PKCS8, ser.NoEncryption()).hex()),
+        ("pkcs8-ed25519", "PrivateKey", ed25519.Ed25519PrivateKey.generate().private_bytes(
+            ser.Encoding.DER, ser.PrivateFormat.PKCS8, ser.NoEncryption()).hex()),
+        ("pkcs8-truncated", "PrivateKey", p8[:len(p8) // 2].hex()),
+        ("pem-text", "PrivateKey", k.private_bytes(ser.Encoding.PEM, ser.PrivateFormat.PKCS8, ser.NoEncryption()).hex()),
+        ("arbitrary-bytes", "PrivateKey", "3003020100"),
+        ("public-spki-ec", "PublicKey", ec.generate_private_key(ec.SECP256R1()).public_key().public_bytes(
+            ser.Encoding.DER, ser.PublicFormat.SubjectPublicKeyInfo).hex()),
+        ("public-arbitrary", "PublicKey", "00" * 16),
+    ])
+    return _ODD
 
 
 def grid_worker(versions, shard, nshards):
